@@ -134,9 +134,9 @@ func gen(r *sim.Rng, tier string) *sim.Case {
 		life := []sim.Op{
 			{Op: "AddRun", K: h1, V: st, D: n1, Ks: []int{1, r.N(3)}},
 			{Op: "RemoveRun", K: h1, V: st + keep, D: n1 - keep, Ks: []int{1, r.N(3)}}, // the smallest `keep` stay
-			{Op: "AddRun", K: h1, V: st + keep, D: fillTo - keep, Ks: []int{1, 0}},    // ascending, each a new maximum
-			{Op: "Add", K: h1, V: st + fillTo + r.N(50)},                              // one more maximum
-			{Op: "Add", K: h1, V: r.N(st)},                                            // and a value below all
+			{Op: "AddRun", K: h1, V: st + keep, D: fillTo - keep, Ks: []int{1, 0}},     // ascending, each a new maximum
+			{Op: "Add", K: h1, V: st + fillTo + r.N(50)},                               // one more maximum
+			{Op: "Add", K: h1, V: r.N(st)},                                             // and a value below all
 			{Op: "Contains", K: h1, V: st + fillTo - 1},
 			{Op: "Contains", K: h1, V: st + fillTo - 2},
 			{Op: "Enum", S: []string{"Iter", "Range", "All"}[r.N(3)]},
